@@ -473,7 +473,7 @@ struct Scen {
     int ik = 0, driver = 0;
     double T = 3, hmax = 0.1, acc = 1e-3, tscale = 0.1;
     bool fixedStep = false, allowInterp = true, everyStep = false, setFinal = false, ras = false, dispatchEvents = true;
-    bool simultaneous = false, tinyWindow = false, twoSubsystems = false;
+    bool simultaneous = false, tinyWindow = false, twoSubsystems = false, zeroRestart = false, zeroStart = false;
     std::vector<double> reps, scheds, targets;
     int maskBits = 0;
     std::string str() const {
@@ -548,8 +548,10 @@ struct Judge {
     // the witness is at roundoff-level zero at the start of the segment: its sign there is not decidable,
     // so a report immediately after the start (re-report of the crossing that ended the previous
     // interval) is neither required nor forbidden
+    // (An exactly zero witness is different: "transitions away from zero are not reported" is decidable.)
     bool ambiguousAtStart(const Wit& w, const Traj& T) const {
-        return std::fabs(w.sg(T.ts, T.y.data())) <= 100 * w.gtol(T.ts, T.y.data());
+        const double g0 = std::fabs(w.sg(T.ts, T.y.data()));
+        return g0 > 0 && g0 <= 100 * w.gtol(T.ts, T.y.data());
     }
     // state y at time t must lie on the analytic trajectory (exactly integrated components only)
     void onTraj(const std::string& what, const Traj& T, double t, const std::vector<double>& y) {
@@ -747,7 +749,11 @@ struct Judge {
                 checkTimed(L[k].h, L[k].t, seenTimes, nsub);
             }
             for (size_t k = i; k < j; ++k) if (L[k].term && !terminated) { terminated = true; tTerm = tG; }
-            seg.ts = tG; seg.y = L[j - 1].yout; seg.mu = L[j - 1].muOut; seg.nu = L[j - 1].nuOut;
+            // re-anchor the analytic trajectory at the handlers' output -- unless nothing was changed: then no
+            // restart happened and the trajectory (with its crossings, e.g. one exactly at this time) just continues
+            bool changed = false;
+            for (size_t k = i; k < j; ++k) changed |= !(L[k].yout == L[k].yin) || L[k].muOut != L[k].muIn || L[k].nuOut != L[k].nuIn;
+            if (changed || anyTrig) { seg.ts = tG; seg.y = L[j - 1].yout; seg.mu = L[j - 1].muOut; seg.nu = L[j - 1].nuOut; }
             i = j;
         }
         // scheduled reporters: also only at their times
@@ -862,10 +868,45 @@ void genScenario(Rng& r, long idx, Scen& sc, Built& B) {
     sc.simultaneous = r.coin(0.4);
 
     // witnesses
-    const int nW = r.integer(1, 4);
+    // "zero at restart" class (forced often for CPodes): witness 0 is k(t-L) with a scheduled time exactly at L, so
+    // its event is localised to tHigh == L where it is exactly zero, its handler changes the state (restart), and
+    // witness 1 crosses 1e-7..1e-5 later. The first step after a restart is given a definite size.
+    sc.zeroRestart = r.coin(isCPodes(sc.ik) ? 0.3 : 0.06);
+    if (sc.zeroRestart) { sc.fixedStep = false; sc.dispatchEvents = true; sc.tinyWindow = false; }
+    // "zero at the initial time" class: witness 0 is k sin(w(z-z(t0))), exactly zero at t0, fast enough that its
+    // sign at y0+0.1*y'(t0) differs from its sign just after t0 (half a period is still >= 3 max steps).
+    sc.zeroStart = !sc.zeroRestart && r.coin(isCPodes(sc.ik) ? 0.2 : 0.04);
+    int zsComp = IZ; double zsOm = 1;
+    if (sc.zeroStart) {
+        zsComp = IZ + r.integer(0, P.nzl - 1);
+        zsOm = r.uni(1.2, 1.8) * Pi / (0.1 * std::fabs(P.c[zsComp - IZ]));
+        sc.hmax = std::min(sc.hmax, Pi / (4.6 * zsOm * std::fabs(P.c[zsComp - IZ])));
+        sc.tinyWindow = false;
+    }
+    const int nW = sc.zeroRestart ? r.integer(2, 4) : r.integer(1, 4);
     std::vector<double> taus;
     for (int j = 0; j < nW; ++j) {
         double tau = P.t0 + r.uni(0.08, 0.92) * (sc.T - P.t0);
+        if (sc.zeroStart && j == 0) {
+            Wit w;
+            w.kind = WSinZ; w.comp = zsComp; w.om = zsOm; w.phi = P.y0[zsComp]; w.mask = 3; w.win = r.uni(0.05, 0.5);
+            w.k = (r.coin() ? 1 : -1) * r.logUni(0.2, 5); w.stage = r.integer(Stage::Dynamics, Stage::Acceleration);
+            S.wits.push_back(w); taus.push_back(P.t0 + Pi / (zsOm * std::fabs(P.c[zsComp - IZ])));
+            continue;
+        }
+        if (sc.zeroRestart && j < 2) {
+            Wit w;
+            w.mask = 3; w.win = r.uni(0.05, 0.5);
+            if (j == 0) { w.kind = WTime; w.k = r.logUni(0.2, 5); w.L = tau; w.stage = r.integer(Stage::Time, Stage::Acceleration); }
+            else {
+                static const double dz[] = {1e-7, 1e-6, 1e-5};
+                tau = taus[0] + dz[r.integer(0, 2)];
+                w.kind = WLinZ; w.comp = IZ + r.integer(0, P.nzl - 1); w.k = (r.coin() ? 1 : -1) * r.logUni(0.2, 5);
+                w.L = compAtInitial(P, w.comp, tau); w.stage = r.integer(Stage::Dynamics, Stage::Acceleration);
+            }
+            S.wits.push_back(w); taus.push_back(tau);
+            continue;
+        }
         int mask = (int)((cyc + j) % 3) + 1;
         int kindSel = (int)((cyc * 5 + j * 3 + r.integer(0, 2)) % 9);
         if (j > 0 && sc.simultaneous && r.coin(0.7)) {
@@ -898,6 +939,8 @@ void genScenario(Rng& r, long idx, Scen& sc, Built& B) {
         HSpec H; H.kind = (sc.driver == 1 && r.coin(0.2)) ? HTrigRep : HTrig; H.wit = j;
         H.eff = (H.kind == HTrig) ? randEff((int)(cyc + 2 * j + sc.ik)) : Eff();
         if (sc.driver == 0 && !sc.dispatchEvents) H.eff = Eff();
+        if (sc.zeroRestart && j == 0) { H.kind = HTrig; H.eff = Eff(); H.eff.kind = r.coin() ? EJumpQ : EJumpU; H.eff.val = (r.coin() ? 1 : -1) * r.uni(0.3, 1.0); }
+        if (sc.zeroRestart && j == 1 && H.eff.kind != ENone && H.eff.kind != ETerm) H.eff = Eff();
         S.hs.push_back(H);
     }
     std::vector<int> subH;
@@ -922,6 +965,7 @@ void genScenario(Rng& r, long idx, Scen& sc, Built& B) {
             std::sort(v.begin(), v.end()); v.erase(std::unique(v.begin(), v.end()), v.end());
             return v;
         };
+        if (sc.zeroRestart) { HSpec H; H.kind = HSched; H.times.push_back(taus[0]); S.hs.push_back(H); pool.push_back(taus[0]); }
         int nS = r.integer(0, 2), nP = r.integer(0, 2), nR = r.integer(0, 2);
         for (int k = 0; k < nS; ++k) { HSpec H; H.kind = HSched; H.times = timeList(r.integer(1, 4)); H.eff = randEff((int)(cyc + k + 3)); S.hs.push_back(H); }
         for (int k = 0; k < nP; ++k) { HSpec H; H.kind = HPer; H.period = r.coin(0.3) ? 0.25 * r.integer(1, 4) : r.uni(0.15, 1.2); H.eff = randEff((int)(cyc + k + 5)); if (H.eff.kind == ETerm) H.eff.termAt += 2; S.hs.push_back(H); }
@@ -949,6 +993,7 @@ void genScenario(Rng& r, long idx, Scen& sc, Built& B) {
         };
         for (int k = 0; k < nr; ++k) sc.reps.push_back(special());
         for (int k = 0; k < ns; ++k) sc.scheds.push_back(special());
+        if (sc.zeroRestart) sc.scheds.push_back(taus[0]);
         for (auto* v : {&sc.reps, &sc.scheds}) {
             v->erase(std::remove_if(v->begin(), v->end(), [&](double t) { return !(t > P.t0 && t < sc.T); }), v->end());
             std::sort(v->begin(), v->end()); v->erase(std::unique(v->begin(), v->end()), v->end());
@@ -1000,6 +1045,7 @@ void runManual(Ctx& c, Scen& sc, Built& B) {
     std::unique_ptr<Integrator> ip = makeInteg(sc.ik, sys, sc.hmax, sc.fixedStep);
     Integrator& integ = *ip;
     integ.setAccuracy(sc.acc);
+    if (sc.zeroRestart && sc.ik != ISEE) integ.setInitialStepSize(std::min(sc.hmax, 2e-3));
     if (!sc.allowInterp) integ.setAllowInterpolation(false);
     if (sc.everyStep) integ.setReturnEveryInternalStep(true);
     if (sc.setFinal) integ.setFinalTime(sc.T);
@@ -1264,6 +1310,7 @@ void runStepper(Ctx& c, Scen& sc, Built& B) {
     std::unique_ptr<Integrator> ip = makeInteg(sc.ik, sys, sc.hmax, sc.fixedStep);
     Integrator& integ = *ip;
     integ.setAccuracy(sc.acc);
+    if (sc.zeroRestart && sc.ik != ISEE) integ.setInitialStepSize(std::min(sc.hmax, 2e-3));
     if (!sc.allowInterp) integ.setAllowInterpolation(false);
     if (sc.everyStep) integ.setReturnEveryInternalStep(true);
     if (sc.setFinal) integ.setFinalTime(sc.T);
